@@ -29,7 +29,7 @@ from ._exceptions import UnboundSignal
 from ._utils import qualified_name
 
 T_Event = TypeVar("T_Event", bound="Event")
-bound_signals = WeakKeyDictionary[Hashable, "Signal[Any]"]()
+bound_signals = WeakKeyDictionary[Hashable, "dict[int, Signal[Any]]"]()
 
 
 class SignalQueueFull(UserWarning):
@@ -96,14 +96,15 @@ class Signal(Generic[T_Event]):
         if instance is None:
             return self
 
+        # Each signal declared on the class gets its own bound signal per instance
         try:
-            return bound_signals[instance]
+            return bound_signals[instance][id(self)]
         except KeyError:
             bound_signal = Signal(self.event_class)
             bound_signal._topic = self._topic
             bound_signal._instance = weakref.ref(instance)
             bound_signal._send_streams = []
-            bound_signals[instance] = bound_signal
+            bound_signals.setdefault(instance, {})[id(self)] = bound_signal
             return bound_signal
 
     def __set_name__(self, owner: Any, name: str) -> None:
